@@ -134,10 +134,12 @@ Proof.
   intros IH d t v b Hrw Henc. pose proof Henc as Henc0.
   inversion Hrw; subst.
   - (* int *)
-    destruct t; try contradiction; cbn [enc] in Henc;
-      try (destruct (Z.eqb_spec z 0); [injection Henc as <-; change [byte_of_N 96] with (head 3 (N.of_nat (length (@nil byte))) ++ []);
-                                       apply raw_ev_str; [now right|unfold short; cbn; lia]|]);
-      injection Henc as <-; now apply raw_ev_int.
+    destruct t; try contradiction; cbn [enc] in Henc.
+    + injection Henc as <-; now apply raw_ev_int.
+    + injection Henc as <-; now apply raw_ev_int.
+    + revert Henc; destruct (Z.eqb_spec z 0); intros Henc; injection Henc as <-; [|now apply raw_ev_int].
+      change [byte_of_N 96] with (head 3 (N.of_nat (length (@nil byte))) ++ []).
+      apply raw_ev_str; [now right|unfold short; cbn; lia].
   - (* bool *)
     destruct t; cbn [enc] in Henc; try discriminate; injection Henc as <-;
       (destruct b0; [change 245%N with (224 + 21)%N|change 244%N with (224 + 20)%N]; apply raw_ev_simple; lia).
